@@ -166,6 +166,13 @@ class _Env:
             return root, c.get("cwd_dir") or parent
         if sp == "dot":                       # "." from inside the directory
             return ".", root
+        if sp in ("symparent", "symparentrel"):   # reached through a symbolic link to its parent directory
+            alias = os.path.join(os.path.dirname(parent), "alias-" + os.path.basename(parent))
+            if not os.path.lexists(alias):
+                os.symlink(parent, alias)
+            if sp == "symparent":
+                return os.path.join(alias, name), c.get("cwd_dir") or parent
+            return os.path.join(os.path.basename(alias), name), os.path.dirname(parent)
         rel = {"rel": name, "dotslash": "./" + name, "trail": name + "/", "trail2": name + "//",
                "updown": "zz/../" + name, "slashdot": name + "/.", "absdot": None, "dbl": None}[sp]
         if sp == "absdot":
